@@ -35,6 +35,8 @@ pub struct Out {
     pub findings: std::io::BufWriter<std::fs::File>,
     pub events: std::io::BufWriter<std::fs::File>,
     pub hb: Option<std::fs::File>,
+    /// outcomes of calls whose value is not asserted (unspecified rules): compared between build profiles
+    pub unspec: Option<std::io::BufWriter<std::fs::File>>,
     pub stats: Stats,
     pub event_every: u64,
     pub event_cap: u64,
@@ -112,7 +114,11 @@ pub fn checked_call(out: &mut Out, e: &str, input: &str, ph: &Val, exp: Option<&
             out.stats.compared += 1;
             match compare(x, &o) {
                 Verdict::Match => out.stats.matched += 1,
-                Verdict::NotAsserted(r) => { out.stats.not_asserted += 1; *out.stats.not_asserted_rules.entry(r.to_string()).or_insert(0) += 1; }
+                Verdict::NotAsserted(r) => {
+                    out.stats.not_asserted += 1;
+                    *out.stats.not_asserted_rules.entry(r.to_string()).or_insert(0) += 1;
+                    if let Some(w) = &mut out.unspec { let _ = writeln!(w, "{}\t{}\t{}\t{}\t{}", key, o.canon(), e, ph.canon(), input.replace('\t', " ")); }
+                }
                 Verdict::Mismatch(cat, msg) => {
                     force = true;
                     let exps = match &x.res { Ok(v) => format!("{:?}", v), Err(s) => format!("{:?}", s) };
@@ -218,6 +224,47 @@ pub fn replay_reject_suffixes(out: &mut Out, v: &Vocab, e: &str, b: &Beh, pol: &
         let exp = reject_exp();
         checked_call(out, e, &r.text, &ph, Some(&exp), json!({"kinds": ks, "v": "reject"}), true, &ctx);
     }
+}
+
+/// boundary-value pools named in the statements of C05, C06, C07, C09 (literals are non-negative text;
+/// negative operands arrive through `@` and through prefix minus, which the enumerated sequences contain)
+pub fn boundary_lits(e: &str) -> Vec<String> {
+    let v: Vec<&str> = match e {
+        "i64" => vec!["0", "1", "2", "3", "7", "20", "21", "62", "63", "64", "2147483648", "4294967295", "4294967296", "3037000499", "3037000500",
+                      "4611686018427387904", "9223372036854775806", "9223372036854775807"],
+        "num" => vec!["0", "1", "2", "3", "0.5", "2.5", "20", "21", "63", "4294967296", "3037000500", "9007199254740992", "9007199254740993",
+                      "4611686018427387904", "9223372036854775807", "9223372036854775806.", "0.1", "1.5"],
+        "f64" => vec!["0", "1", "2", "3", "0.5", "0.1", "0.2", "2.5", "9007199254740992", "9007199254740993", "4.9406564584124654e-324", "1.7976931348623157e308",
+                      "179769313486231570000000000000000000000000000000000000000000000000000000000000000000000000000000000000000000000000000000000000000000000000000000000000000000000000000000000000000000000000000000000000000000000000000000000000000000000000000000000000000000000000000000000000000000000000000000000000000000000",
+                      "0.000000000000000000000000000000000000000000000000000000000000000000000000000000000000000000000000000000000000000000000000000000000000000000000000000000000000000000000000000000000000000000000000000000000000000000000000000000000000000000000000000000000000000000000000000000000000000000000000000000000000000000000000000000005",
+                      "170", "171", "1.5", "3.5"],
+        "dec" => vec!["0", "1", "2", "3", "0.1", "0.2", "1.10", "2.5", "0.5", "79228162514264337593543950335", "7922816251426433759354395033", "0.0000000000000000000000000001",
+                      "39614081257132168796771975168", "1.0000000000000000000000000001", "9999999999999999999999999999", "27", "28", "0.3"],
+        _ => vec!["0", "1", "2", "3i", "0.5", "i", "1.5i", "2.5", "10", "0.1"],
+    };
+    v.into_iter().filter(|s| !s.contains("e-") && !s.contains("e3")).map(String::from).collect()
+}
+
+/// all assignments of pool indices to `n` literal positions, capped (beyond the cap: a seeded random sample)
+pub fn assignments(n: usize, pool: usize, cap: usize, rng: &mut Rng) -> Vec<Vec<usize>> {
+    if n == 0 { return vec![vec![]]; }
+    let total = (pool as f64).powi(n as i32);
+    if total <= cap as f64 {
+        let mut out = Vec::new();
+        let mut idx = vec![0usize; n];
+        loop {
+            out.push(idx.clone());
+            let mut k = 0;
+            loop {
+                if k == n { return out; }
+                idx[k] += 1;
+                if idx[k] < pool { break; }
+                idx[k] = 0;
+                k += 1;
+            }
+        }
+    }
+    (0..cap).map(|_| (0..n).map(|_| rng.below(pool)).collect()).collect()
 }
 
 pub fn claim_of(b: &Beh) -> Value { json!({"kinds": b.kinds, "v": b.verdict}) }
